@@ -106,6 +106,7 @@ def register(db):
                 ("inherits-every-binding-in-scope",
                  "forall('str|None', lambda k: implies(k in old(self.ns_map), k in self.ns_map and self.ns_map[k] == old(self.ns_map)[k]))"),
                 ("tag-is-pending", "self.pending_tag == clark_split(qname)"),
+                ("enclosing-start-tag-flushed-as-non-empty", "called('EventHandler.flush_start') == 1 and call_arg('EventHandler.flush_start', 1) == False"),
                 ("tag-namespace-has-a-prefix", "implies(clark_split(qname)[0] is not None, " + BOUND.format(u="clark_split(qname)[0]") + ")"),
             ] + ([("parent-scope-object-untouched-by-the-child", "same_dict(self.ns_context[-2], old(self.ns_context[-1]))")] if depth == 1 else []),
             raises={}, modifies=["self.ns_map", "self.pending_tag", "self.ns_context"],
@@ -122,6 +123,7 @@ def register(db):
             requires=["implies(self.pending_tag[0] is not None, " + BOUND.format(u="self.pending_tag[0]") + ")"],
             ensures=[
                 ("emits-the-element-once", "called('EventHandler.start_element') == 1"),
+                ("declares-the-new-bindings-before-the-element", "called('EventHandler.start_namespaces') == 1"),
                 ("element-namespace-has-a-prefix-in-scope",
                  "implies(old(self.pending_tag)[0] is not None, " + BOUND.format(u="old(self.pending_tag)[0]") + ")"),
                 ("unqualified-element-has-no-default-namespace-in-scope",
@@ -130,6 +132,10 @@ def register(db):
                 ("prefixed-bindings-kept", "forall('str|None', lambda k: implies(k is not None and k in old(self.ns_map), "
                                            "k in self.ns_map and self.ns_map[k] == old(self.ns_map)[k]))"),
                 ("nothing-left-pending", "self.pending_tag is None and len(self.attrs) == 0 and self.in_tail == False"),
+                ("xsi-nil-only-on-empty-elements", "implies(not is_nil, not (XSI_NIL_KEY in call_arg('EventHandler.start_element', 3)))"
+                 .replace("XSI_NIL_KEY", "('http://www.w3.org/2001/XMLSchema-instance', 'nil')")),
+                ("xsi-nil-kept-on-empty-elements", "implies(is_nil and XSI_NIL_KEY in old(self.attrs), XSI_NIL_KEY in call_arg('EventHandler.start_element', 3))"
+                 .replace("XSI_NIL_KEY", "('http://www.w3.org/2001/XMLSchema-instance', 'nil')")),
             ],
             raises={},
             loops=[Loop(invariants=[
@@ -164,19 +170,23 @@ def register_end_tag(db):
     the namespace context loses its top entry and the handler's current map is the parent's scope *object* again
     (siblings that follow are written in the parent's scope, with whatever the parent declared)."""
     P = ["C03"]
-    for depth in (1, 2):
+    for depth in (1, 2, 3):
         db.add(Contract(
             f"{EH}.end_tag", variant=f"depth{depth}",
             params={"self": handler(depth, None), "qname": "str"},
             requires=["len(qname) > 0"],
             ensures=[
+                ("pending-start-tag-flushed-as-possibly-empty", "called('EventHandler.flush_start') == 1 and call_arg('EventHandler.flush_start', 1) == True"),
                 ("ends-the-element-once", "called('EventHandler.end_element') == 1 and call_arg('EventHandler.end_element', 2) == qname "
                                           "and call_arg('EventHandler.end_element', 1) == clark_split(qname)"),
                 ("scope-popped", f"len(self.ns_context) == {depth - 1}"),
                 ("nothing-pending-no-tail", "self.pending_tag is None and self.tail is None and self.in_tail == False"),
-            ] + ([("current-map-is-the-parent-scope-object", "self.ns_map is self.ns_context[-1] and self.ns_map is scope0"),
-                    ("parent-scope-content-untouched", "same_dict(scope0, old(scope0))")]
-                 if depth == 2 else []),
+                ("tail-text-written-after-the-end-tag", "implies(old(self.tail), called('EventHandler.set_characters') == 1 and "
+                                                        "call_arg('EventHandler.set_characters', 1) == old(self.tail)) and "
+                                                        "implies(not old(self.tail), called('EventHandler.set_characters') == 0)"),
+            ] + ([("current-map-is-the-parent-scope-object", f"self.ns_map is self.ns_context[-1] and self.ns_map is scope{depth - 2}"),
+                    ("parent-scope-content-untouched", f"same_dict(scope{depth - 2}, old(scope{depth - 2}))")]
+                 if depth >= 2 else []),
             raises={}, modifies=["self.ns_map", "self.tail", "self.in_tail", "self.ns_context", "self.pending_tag", "self.attrs"],
             loops=[Loop(invariants=[], header="self.pending_prefixes.pop()")],
             properties=P,
